@@ -1,0 +1,92 @@
+//go:build verif
+
+package semap
+
+// Verification hooks (build tag `verif` only; add-only, no existing line changed).
+// They read the container's internal state under the same mutex the package itself uses.
+
+// verifShard returns the single map that owns key.
+func verifShard(m SemMapper, key interface{}) *SemMap {
+	switch v := m.(type) {
+	case *SemMap:
+		return v
+	case *WideSemMap:
+		return v.calculateKey(key)
+	}
+	return nil
+}
+
+// VerifKeyState reports, for the object the map currently holds for key: tokens held (cur), number of
+// queued waiters, and whether the map has an entry for the key at all.
+func VerifKeyState(m SemMapper, key interface{}) (held int, waiters int, present bool) {
+	s := verifShard(m, key)
+	if s == nil {
+		return 0, 0, false
+	}
+	s.mux.Lock()
+	defer s.mux.Unlock()
+	w, ok := s.m[key]
+	if !ok {
+		return 0, 0, false
+	}
+	return w.cur, w.waiters.Len(), true
+}
+
+// VerifSemState reports tokens held and queued waiters of one *Weighted (as returned by Acquire*), whether
+// or not the map still refers to it. key selects the shard whose mutex protects it.
+func VerifSemState(m SemMapper, key interface{}, w *Weighted) (held int, waiters int, inMap bool) {
+	s := verifShard(m, key)
+	if s == nil || w == nil {
+		return 0, 0, false
+	}
+	s.mux.Lock()
+	defer s.mux.Unlock()
+	cur, ok := s.m[key]
+	return w.cur, w.waiters.Len(), ok && cur == w
+}
+
+// VerifEntries is the total number of entries the container keeps (all shards).
+func VerifEntries(m SemMapper) int {
+	switch v := m.(type) {
+	case *SemMap:
+		v.mux.Lock()
+		defer v.mux.Unlock()
+		return len(v.m)
+	case *WideSemMap:
+		n := 0
+		for _, s := range v.ms {
+			s.mux.Lock()
+			n += len(s.m)
+			s.mux.Unlock()
+		}
+		return n
+	}
+	return -1
+}
+
+// VerifShardIndex is the shard a key is routed to (0 for the single map) and the shard count.
+func VerifShardIndex(m SemMapper, key interface{}) (idx int, shards int) {
+	switch v := m.(type) {
+	case *SemMap:
+		return 0, 1
+	case *WideSemMap:
+		return v.calKeyFn(key), len(v.ms)
+	}
+	return -1, 0
+}
+
+// VerifLock takes the mutex of the single map that owns key (the one every Acquire*/Release* of that key
+// takes); VerifUnlock gives it back. The harness uses the pair to order two critical sections
+// deterministically (a release's grant before the fix-up of a caller whose context ended meanwhile).
+func VerifLock(m SemMapper, key interface{}) {
+	if s := verifShard(m, key); s != nil {
+		s.mux.Lock()
+	}
+}
+
+// VerifUnlock releases the mutex taken by VerifLock.
+func VerifUnlock(m SemMapper, key interface{}) {
+	if s := verifShard(m, key); s != nil {
+		s.mux.Unlock()
+	}
+}
